@@ -15,9 +15,9 @@ import (
 
 	"verif/ctl"
 	"verif/gen/probe"
-	"verif/svc"
 	rc "verif/refcodec"
 	"verif/stuck"
+	"verif/svc"
 	"verif/wk"
 )
 
